@@ -44,13 +44,15 @@ def wname(op, ty, var):
     s = 'k_%s_%s' % (op.name, ty.name)
     for k in sorted(var):
         s += '_%s%s' % (k, _vstr(var[k]))
+    s = ''.join(ch if (ch.isalnum() or ch == '_') else ('m' if ch == '-' else '_') for ch in s)
     if len(s) > 120:
         s = s[:80] + '_h' + hashlib.sha1(s.encode()).hexdigest()[:16]
     return s
 
 
-def fmt_var(var):
-    return dict((k, (', '.join(str(e) for e in v) if isinstance(v, (list, tuple)) else v)) for k, v in var.items())
+def fmt_var(var, lit=None, ty=None):
+    f = (lambda k, e: lit(ty, k, e)) if lit else (lambda k, e: str(e))
+    return dict((k, (', '.join(f(k, e) for e in v) if isinstance(v, (list, tuple)) else v)) for k, v in var.items())
 
 
 def wrapper_line(op, ty, var, cfg=None):
@@ -87,10 +89,10 @@ def wrapper_line(op, ty, var, cfg=None):
         elif k == 'P':
             decl.append('%s* %s' % (op.ptr_type(ty) if hasattr(op, 'ptr_type') and op.ptr_type else ct, nm))
     if op.ret == 'void':
-        expr = op.expr.format(T=ct, TN=ty.name, U=UTYPE[ty.bits], IT=ITYPE[ty.bits], ELIST=', '.join('e%d' % i for i in range(nl)), **fmt_var(var))
+        expr = op.expr.format(T=ct, TN=ty.name, U=UTYPE[ty.bits], IT=ITYPE[ty.bits], ELIST=', '.join('e%d' % i for i in range(nl)), **fmt_var(var, getattr(op, 'lit', None), ty))
         return 'extern "C" void %s(%s) { %s %s; }' % (wname(op, ty, var), ', '.join(decl), ' '.join(body), expr), names
     rt = {'b': 'R_<%s>' % ct, 'm': 'Q_<%s>' % ct, 's': ct, 'bool': 'bool', 'u64': 'uint64_t', 'int': 'int', 'size': 'size_t'}.get(op.ret) or op.ret.format(T=ct)
-    expr = op.expr.format(T=ct, TN=ty.name, U=UTYPE[ty.bits], IT=ITYPE[ty.bits], ELIST=', '.join('e%d' % i for i in range(nl)), **fmt_var(var))
+    expr = op.expr.format(T=ct, TN=ty.name, U=UTYPE[ty.bits], IT=ITYPE[ty.bits], ELIST=', '.join('e%d' % i for i in range(nl)), **fmt_var(var, getattr(op, 'lit', None), ty))
     return 'extern "C" %s %s(%s) { %s return %s; }' % (rt, wname(op, ty, var), ', '.join(decl), ' '.join(body), expr), names
 
 
